@@ -108,7 +108,9 @@ def judgeModels (ms : List Asg) (op : Op) (out : Out) : Option String :=
      | none => chk (optOf true signed e.bits (ms.map e.val) == some (wrap e.bits i)) "wrong-optimum")
   | .solution e v _, .bool b =>
     (match e.conc with
-     | some c => chk (b == (c == v)) "wrong-constant"
+     -- a concrete expression: the classes with ConcreteHandlerMixin answer `c == v` without looking at the constraints,
+     -- the others (SolverCompositeChild) ask the solver, which says `false` when the constraints have no model
+     | some c => chk (b == (c == v) || (ms.isEmpty && !b)) "wrong-constant"
      | none => chk (b == (ms.map e.val).contains v) "wrong-solution")
   | .isTrue c _, .bool b => chk (!b || ms.all c.sem) "unsound-is_true"
   | .isFalse c _, .bool b => chk (!b || ms.all fun a => !c.sem a) "unsound-is_false"
